@@ -1,4 +1,5 @@
 mod alpha;
+mod bfs;
 mod ev;
 mod model;
 mod props;
@@ -118,6 +119,10 @@ fn main() {
         "C02" => props::c02::run(&ctx),
         "C03" => props::c03::run(&ctx),
         "C04" => props::c04::run(&ctx),
+        "C06" => props::c06::run(&ctx),
+        "C07" => props::c07::run(&ctx),
+        "C08" => props::c08::run(&ctx),
+        "C09" => props::c09::run(&ctx),
         _ => {
             eprintln!("unknown property {}", prop);
             std::process::exit(2);
